@@ -214,6 +214,10 @@ def run(ck):
             if hb is not None and hb == rb and hi == 0 and ri == 1 and df.mentions(hb, lambda x: df.is_call(x, "Zip<A, B> as core::iter::traits::iterator::Iterator>::next")):
                 good = True
                 detail = "hunk = item.0, report = item.1 of one Zip::next()"
+        if not good:
+            d2 = loop_over_filtered_pairs(prog, wr, bb)
+            if d2:
+                good, detail = True, d2
         ck.require(good, "C13-R2", "only hunks whose own report is Failed are written",
                    "the hunk writer is not dominated by the Failed discriminant of the report paired with that hunk", wr.where(t), ok_detail=detail)
     zips = [(bb, t) for bb, t in wr.calls() if (callee_of(t).get("path") or "").endswith("Iterator::zip")]
@@ -288,6 +292,50 @@ def run(ck):
                    "write_rej_to uses %s, write_to uses %s" % (sorted(writers(wr)), sorted(writers(full))), wr.where())
 
 
+def filter_lets_only_failed(pf):
+    """The filter closure over (hunk, report) pairs returns true only under the Failed discriminant of the pair's field 1."""
+    sws = pt.discr_switches(pf, lambda e, rv: (rv.get("adt") or "").endswith("HunkApplyReport"))
+    on_item1 = [sw for sw in sws if df.mentions(sw["expr"], lambda x: isinstance(x, tuple) and x[0] == "field" and x[2] == 1 and
+                                                df.mentions(x[1], lambda y: isinstance(y, tuple) and y[0] == "param" and y[1] == 2))]
+    trues = [b3 for b3, i3, s3 in pf.stmts() if s3["k"] == "assign" and s3["lhs"]["l"] == 0 and "p" not in s3["lhs"] and
+             df.rvalue_expr(pf, s3["rv"]) != ("const", 0, "bool")]
+    return bool(on_item1) and bool(trues) and all(
+        any(sw["edges"].get("Failed") and b3 in cfg.dominated_by_edge(pf, sw["edges"]["Failed"]) for sw in on_item1) for b3 in trues)
+
+
+def loop_over_filtered_pairs(prog, wr, bb):
+    """The block bb lies in a loop over `zip(..).filter(|(_, r)| r is Failed).map(|(hunk, _)| hunk)`: returns a description, or None."""
+    for il in pt.iterator_loops(wr):
+        if bb not in il["body"]:
+            continue
+        src = df.operand_expr(wr, il["next_term"]["args"][0])
+        # a loop variable `iter` that is borrowed mutably stops the expansion: follow its (single) definition by hand
+        for _ in range(6):
+            locs = [x for x in df.walk(src) if isinstance(x, tuple) and x and x[0] == "local"]
+            if not (isinstance(src, tuple) and src and (src[0] == "local" or (df.is_call(src, "IntoIterator::into_iter") and locs))):
+                break
+            l = src[1] if src[0] == "local" else locs[0][1]
+            ds = df.all_def_exprs(wr, l)
+            if len(ds) != 1:
+                break
+            src = ds[0]
+        maps = [x for x in df.walk(src) if df.is_call(x, "Iterator::map") and len(x[2]) == 2]
+        for m in maps:
+            flt, mc = m[2]
+            if not (df.is_call(flt, "Iterator::filter") and len(flt[2]) == 2 and df.is_call(flt[2][0], "Iterator::zip")):
+                continue
+            fc = flt[2][1]
+            if not (isinstance(fc, tuple) and fc[0] == "closure" and fc[1] in prog.fns and isinstance(mc, tuple) and mc[0] == "closure" and mc[1] in prog.fns):
+                continue
+            mf = prog.fns[mc[1]]
+            rets = df.all_def_exprs(mf, 0)
+            takes0 = bool(rets) and all(isinstance(r, tuple) and r[0] == "field" and r[2] == 0 and isinstance(r[1], tuple) and r[1][0] == "param" and r[1][1] == 2
+                                        for r in rets)
+            if takes0 and filter_lets_only_failed(prog.fns[fc[1]]):
+                return "loop over zip(..).filter(|(_, r)| r is Failed).map(|(hunk, _)| hunk)"
+    return None
+
+
 def r2_combinator_form(ck, wr):
     """zip(hunks, reports).filter(|(_, r)| matches!(r, Failed(..))).try_for_each(|(hunk, _)| hunk.write_to(w)): the hunk written is
     field 0 of the pair, the filter lets a pair through only on the Failed discriminant of its field 1.  Returns the number of hunk
@@ -317,14 +365,7 @@ def r2_combinator_form(ck, wr):
             ok_filter = False
             if flt is not None and len(flt[2]) == 2 and isinstance(flt[2][1], tuple) and flt[2][1][0] == "closure" and flt[2][1][1] in prog.fns and \
                     df.is_call(flt[2][0], "Iterator::zip"):
-                pf = prog.fns[flt[2][1][1]]
-                sws = pt.discr_switches(pf, lambda e, rv: (rv.get("adt") or "").endswith("HunkApplyReport"))
-                on_item1 = [sw for sw in sws if df.mentions(sw["expr"], lambda x: isinstance(x, tuple) and x[0] == "field" and x[2] == 1 and
-                                                            df.mentions(x[1], lambda y: isinstance(y, tuple) and y[0] == "param" and y[1] == 2))]
-                trues = [b3 for b3, i3, s3 in pf.stmts() if s3["k"] == "assign" and s3["lhs"]["l"] == 0 and "p" not in s3["lhs"] and
-                         df.rvalue_expr(pf, s3["rv"]) != ("const", 0, "bool")]
-                ok_filter = bool(on_item1) and bool(trues) and all(
-                    any(sw["edges"].get("Failed") and b3 in cfg.dominated_by_edge(pf, sw["edges"]["Failed"]) for sw in on_item1) for b3 in trues)
+                ok_filter = filter_lets_only_failed(prog.fns[flt[2][1][1]])
             ck.require(item0 and ok_filter, "C13-R2", inst,
                        "the hunk writer runs in a %s closure over %s: not `zip(hunks, reports).filter(report is Failed)` with the hunk taken from "
                        "field 0 of the pair" % (last, df.show(recv, 100)), cl.where(t2),
